@@ -11,7 +11,7 @@ Definition exn_name (e : exn) : str :=
   | TypeError => s "TypeError" | ValueError => s "ValueError" | ConfigError => s "ConfigError"
   | DefaultNSError => s "DefaultNSError" | DefaultEWError => s "DefaultEWError"
   | IndexError => s "IndexError" | AttributeError => s "AttributeError"
-  | KeyError => s "KeyError" | OutOfFuel => s "OutOfFuel"
+  | KeyError => s "KeyError" | OutOfFuel => s "OutOfFuel" | ModelGap => s "ModelGap"
   end.
 
 Definition vpy {A} (f : A -> pv) (x : Py A) : pv :=
